@@ -21,6 +21,19 @@ def r1_loop(ck, cx, kind, cls, f, fps):
             ck.ob('R1', f.qn, 'delivery happens inside a loop of processIncomingPacket (several frames per read)', ok,
                   detail='delivery-outside-loop', loc=cx.floc(f),
                   message='%s framer delivers at most one frame per processIncomingPacket call: a second frame in the same read stays undelivered' % kind)
+            # a checked frame is consumed by advancing past it: clearing the whole buffer in the delivering iteration throws away
+            # the frames queued behind it
+            marks = [i for i, k_, n_ in fp.loops if i < d]
+            lo_i = marks[-1] if marks else 0
+            cfs = [t for i, t in fp.truths.get('checkFrame', []) if lo_i <= i < d]       # the check of this very iteration
+            if cfs and cfs[-1] is True:
+                nxt = [i for i, k_, n_ in fp.loops if i > d]
+                hi_i = nxt[0] if nxt else len(fp.path.ev)
+                clears = [i for i, k_ in fp.shrinks if k_ == 'clear' and lo_i <= i <= hi_i]
+                ck.ob('R1', f.qn, 'a delivered (checked) frame is consumed by advancing past it, not by clearing the buffer', not clears,
+                      detail='delivery-clears-buffer', loc=cx.floc(f, fp.path.ev[clears[0]].node) if clears else cx.floc(f),
+                      message='%s framer clears its whole buffer in the iteration that delivers a checked frame: the frames that arrived in the same read '
+                              'behind it are lost' % kind)
             if ok and in_root_loop(fp, d) and not fp.absences:
                 # the loop must be able to continue after a delivery: the delivering iteration ends at the back-edge, not at a break
                 after = [k for i, k, n in fp.loops if i > d]
@@ -197,6 +210,18 @@ def r7_add_appends(ck, cx, kind, cls, rule='R7'):
               detail='add-not-append %s' % (txt or 'unchanged')[:60], loc=cx.floc(fn),
               message='%s framer: addToFrame can leave `%s` in the buffer instead of buffer + chunk: bytes are dropped or reordered outside the frame logic'
                       % (kind, U(v) if v is not None else 'the old buffer'))
+    # ... and what processIncomingPacket hands to addToFrame is the chunk it was given
+    pf = cx.method(cls, 'processIncomingPacket')
+    dparam = pf.params[1]
+    for p in cx.enum(pf, cls, max_depth=0):
+        annotate(p, heap=False)
+        for e in p.ev:
+            if e.kind == 'call' and callee_name(e.node) == 'addToFrame' and e._sub.args:
+                n += 1
+                ck.ob(rule, pf.qn, 'the chunk added to the buffer is the chunk received, unmodified', U(e._sub.args[0]) == dparam,
+                      detail='chunk-modified-before-add %s' % U(e._sub.args[0])[:40], loc=cx.floc(pf, e.node),
+                      message='%s framer adds `%s` instead of the received bytes to its buffer: bytes of a valid frame (for instance a leading 0x00 unit id) '
+                              'are lost depending on where the read boundary falls' % (kind, U(e._sub.args[0])[:60]))
     return n
 
 
